@@ -205,7 +205,7 @@ def other_systems(chk, rs):
         c = spectral.csys_of(shape)
         d = c.dim
         n = d * d - 1
-        for trial in range(2):
+        for trial in range(2 if chk.tier == "quick" else 8):
             A = rs.randn(d, d) + 1j * rs.randn(d, d)
             H = (A + A.conj().T) / 2
             Bm = rs.randn(n, n) + 1j * rs.randn(n, n)
